@@ -76,6 +76,11 @@ func (fx *FnCtx) execCall(st *State, pc *Term, site ssa.Instruction, call *ssa.C
 	case *ssa.Builtin:
 		return fx.builtinCall(st, pc, f, call, rt)
 	case *ssa.Function:
+		if pkg, name := funcKey(f); pkg == "encoding/binary" && name == "Read" {
+			return fx.binaryRead(st, pc, call, rt)
+		} else if pkg == "sort" && (name == "Sort" || name == "IsSorted" || name == "Stable") {
+			return fx.sortModel(st, pc, name, call, rt)
+		}
 		var args []Value
 		for _, a := range call.Args {
 			args = append(args, fx.val(a))
@@ -533,7 +538,26 @@ func (fx *FnCtx) evalFrame(env *Env, exprs []SpecExpr, srcs []string) []FrameIte
 				}
 				tag := sv.V.L[0]
 				if !tag.IsNum() {
-					fx.fail("modifies %s: the dynamic type of the interface value is not statically known here", src)
+					// dynamic type unknown: it may be any struct type of the package under verification that
+					// implements the interface; objects of types outside it are not part of the modelled state
+					iface, _ := sv.V.T.Underlying().(*types.Interface)
+					if tp := fx.pkgTypes(); tp != nil && iface != nil {
+						sc := tp.Scope()
+						for _, nm := range sc.Names() {
+							tn, ok := sc.Lookup(nm).(*types.TypeName)
+							if !ok || tn.IsAlias() {
+								continue
+							}
+							if _, isStruct := tn.Type().Underlying().(*types.Struct); !isStruct {
+								continue
+							}
+							if types.Implements(types.NewPointer(tn.Type()), iface) {
+								out = append(out, FrameItem{Kind: PObj, Root: tn.Type(), Ref: sv.V.L[1], Src: src})
+							}
+						}
+					}
+					fx.V.usedTrusted["reader/writer objects of types outside the package are not modelled state"] = true
+					continue
 				}
 				if tag.Val.Sign() == 0 {
 					continue
@@ -876,6 +900,30 @@ func (fx *FnCtx) instrMods(ins ssa.Instruction, ms *modSet, depth int) {
 func (fx *FnCtx) calleeMods(f *ssa.Function, ms *modSet, call *ssa.CallCommon, depth int) {
 	fc := fx.V.contractFor(f)
 	pkg, name := funcKey(f)
+	// built-in models (binaryRead, sortModel)
+	if pkg == "encoding/binary" && name == "Read" {
+		if mi, ok := call.Args[2].(*ssa.MakeInterface); ok {
+			if pt, ok := mi.X.Type().Underlying().(*types.Pointer); ok {
+				fx.ptrTarget(mi.X, ms, pt.Elem())
+				return
+			}
+			if sl, ok := mi.X.Type().Underlying().(*types.Slice); ok {
+				fx.addArrHeaps(ms, sl.Elem())
+				return
+			}
+		}
+		ms.all = true
+		ms.why = "binary.Read into an unmodelled target in loop"
+		return
+	}
+	if pkg == "sort" && (name == "Sort" || name == "Stable" || name == "IsSorted") {
+		if mi, ok := call.Args[0].(*ssa.MakeInterface); ok && name != "IsSorted" {
+			if sl, ok := mi.X.Type().Underlying().(*types.Slice); ok {
+				fx.addArrHeaps(ms, sl.Elem())
+			}
+		}
+		return
+	}
 	if fc != nil && !fc.Inline {
 		fx.contractMods(fc, ms, call)
 		return
@@ -965,6 +1013,23 @@ func (fx *FnCtx) contractMods(fc *FuncContract, ms *modSet, call *ssa.CallCommon
 				return
 			}
 			fx.addObjHeaps(ms, u.Elem(), 0, 0)
+		case *types.Interface:
+			// object(i)[.f]: objects of the package's struct types that implement the interface
+			if tp := fx.pkgTypes(); tp != nil {
+				sc := tp.Scope()
+				for _, nm := range sc.Names() {
+					tn, ok := sc.Lookup(nm).(*types.TypeName)
+					if !ok || tn.IsAlias() {
+						continue
+					}
+					if _, isStruct := tn.Type().Underlying().(*types.Struct); !isStruct {
+						continue
+					}
+					if types.Implements(types.NewPointer(tn.Type()), u) {
+						fx.addObjHeaps(ms, tn.Type(), 0, 0)
+					}
+				}
+			}
 		default:
 			ms.all = true
 			ms.why = "modifies clause on " + pt.String()
@@ -1132,4 +1197,78 @@ func (fx *FnCtx) frameCoversLeaf(it FrameItem, heapName string) bool {
 		}
 	}
 	return false
+}
+
+// binaryRead is the built-in model of encoding/binary.Read(r, order, data) for data = &x with x of a
+// fixed-size type: x receives an arbitrary value of its type and an arbitrary error is returned.
+// Assumed (trusted): binary.Read changes no modelled state other than *data, does not panic for a
+// pointer to a fixed-size value, and returns.
+func (fx *FnCtx) binaryRead(st *State, pc *Term, call *ssa.CallCommon, rt types.Type) Value {
+	fx.V.usedTrusted["encoding/binary.Read (built-in model)"] = true
+	var p *PtrInfo
+	if mi, ok := call.Args[2].(*ssa.MakeInterface); ok && fx.ifacePtrs != nil {
+		p = fx.ifacePtrs[mi]
+	}
+	if mi, ok := call.Args[2].(*ssa.MakeInterface); ok && p == nil {
+		if sl, ok := mi.X.Type().Underlying().(*types.Slice); ok && len(fx.tc.Layout(sl.Elem()).Leaves) == 1 {
+			// data is a slice of fixed-size values: its elements receive arbitrary values
+			x := fx.val(mi.X)
+			tc := fx.tc
+			lo, hi := x.L[1], tc.IdxAdd(x.L[1], x.L[2])
+			fx.frameCheckRange(st, pc, sl.Elem(), x.L[0], lo, hi)
+			fx.havocFrame(st, pc, []FrameItem{{Kind: PElem, Root: sl.Elem(), Arr: x.L[0], Lo: lo, Hi: hi, Src: "binary.Read"}}, "binread")
+			res, rfacts := fx.tc.FreshValue(rt, "binread_err")
+			for _, f := range rfacts {
+				fx.assume(f)
+			}
+			return res
+		}
+	}
+	if p == nil {
+		fx.fail("binary.Read: the data argument is not the address of a variable (outside the model)")
+	}
+	fx.nonNil(pc, p, "binary.Read target")
+	fx.frameCheck(st, pc, p)
+	nv, facts := fx.tc.FreshValue(p.Typ, "binread")
+	for _, f := range facts {
+		fx.assume(f)
+	}
+	old := fx.Load(st, p)
+	m, err := iteValue(pc, nv, old)
+	if err != nil {
+		fx.fail("binary.Read: %v", err)
+	}
+	fx.StoreTo(st, p, m)
+	res, rfacts := fx.tc.FreshValue(rt, "binread_err")
+	for _, f := range rfacts {
+		fx.assume(f)
+	}
+	return res
+}
+
+// sortModel is the built-in model of sort.Sort / sort.Stable / sort.IsSorted applied to a slice type
+// that implements sort.Interface: Sort and Stable leave arbitrary values in the elements of the slice
+// (a permutation is an instance), IsSorted returns an arbitrary boolean. Assumed (trusted): the Len,
+// Less and Swap methods of the slice type only touch the slice's own elements and do not panic for
+// indices below Len.
+func (fx *FnCtx) sortModel(st *State, pc *Term, name string, call *ssa.CallCommon, rt types.Type) Value {
+	fx.V.usedTrusted["sort."+name+" (built-in model)"] = true
+	mi, ok := call.Args[0].(*ssa.MakeInterface)
+	if !ok {
+		fx.fail("sort.%s: argument is not a conversion of a slice (outside the model)", name)
+	}
+	sl, ok := mi.X.Type().Underlying().(*types.Slice)
+	if !ok {
+		fx.fail("sort.%s: argument type %v is not a slice type (outside the model)", name, mi.X.Type())
+	}
+	if name == "IsSorted" {
+		res, _ := fx.tc.FreshValue(rt, "issorted")
+		return res
+	}
+	x := fx.val(mi.X)
+	tc := fx.tc
+	lo, hi := x.L[1], tc.IdxAdd(x.L[1], x.L[2])
+	fx.frameCheckRange(st, pc, sl.Elem(), x.L[0], lo, hi)
+	fx.havocFrame(st, pc, []FrameItem{{Kind: PElem, Root: sl.Elem(), Arr: x.L[0], Lo: lo, Hi: hi, Src: "sort." + name}}, "sort")
+	return Value{T: rt}
 }
